@@ -10,7 +10,7 @@ from gen import mutants
 from gen.programs import INT, BOOL, STR, FLOAT, VOID, tup, fn, iter_of, arr, cell, multi
 from props import c07, c01, c06, c11, c12, c13
 
-THM_MODULES = ["SslModel.Thm.C02", "SslModel.Thm.C02Eval", "SslModel.Thm.C01Fn"]
+THM_MODULES = ["SslModel.Thm.C02", "SslModel.Thm.C02Eval", "SslModel.Thm.C01Fn", "SslModel.Thm.C01StD"]
 TRANSLATE_PARTS = ["scalar", "errors"]
 
 
